@@ -163,4 +163,14 @@ func init() {
 	reg("("+pj+".MarshalOptions).MarshalAppend", func(m *Machine, fn *ssa.Function, args []Value) Value {
 		return call(m, "vfPJMarshalAppend", args[1], args[2])
 	})
+	// well-known types built by larking's parseParam: ProtoReflect of the real generated message is
+	// answered by the harness's fake view (model_wkt.go); natively the real reflection runs.
+	known := "google.golang.org/protobuf/types/known/"
+	for _, tn := range []string{"wrapperspb.StringValue", "wrapperspb.BytesValue", "wrapperspb.BoolValue", "wrapperspb.Int32Value", "wrapperspb.Int64Value",
+		"wrapperspb.UInt32Value", "wrapperspb.UInt64Value", "fieldmaskpb.FieldMask", "durationpb.Duration", "timestamppb.Timestamp"} {
+		reg("(*"+known+tn+").ProtoReflect", func(m *Machine, fn *ssa.Function, args []Value) Value {
+			rt := fn.Signature.Recv().Type()
+			return call(m, "vfWKTReflect", Iface{T: rt, V: args[0]})
+		})
+	}
 }
